@@ -3,7 +3,7 @@
 They wrap namespaced methods of the node classes from the outside.  If the wrapped names disappear the probe
 reports nothing, and the violation is then reported as an ordinary VIOLATION (fail-safe direction)."""
 
-counters = {'prefilter_drops': 0, 'partial_list_prune': 0}
+counters = {'prefilter_drops': 0, 'partial_list_prune': 0, 'list_index_clipped': 0}
 _installed = False
 
 
@@ -36,5 +36,18 @@ def install():
                 return ret
             return orig(self, condition, prefix=prefix, removed=removed)
         ns._names['filter_nodes'] = filter_nodes
+    except Exception:
+        pass
+    try:
+        # a child written to a list at an index beyond its end is put at the end instead (non-strict set_child): during a merge
+        # this only happens when the older list has been pruned after the keys of the mapping merged onto it were validated
+        from awesomeyaml.nodes.list import ConfigList
+        orig_set = ConfigList._set
+
+        def _set(self, index, value, strict=True):
+            if not strict and isinstance(index, int) and not isinstance(index, bool) and (index > len(self) or -index > len(self)):
+                counters['list_index_clipped'] += 1
+            return orig_set(self, index, value, strict=strict)
+        ConfigList._set = _set
     except Exception:
         pass
